@@ -104,7 +104,7 @@ theorem C07_no_marker_plan (w : World) (dir : String) (md : DirSt) (h : w.get (m
     flushed, the lock is taken) — in particular the data files are untouched and the stale merge
     directory is still there (the next `Merge` deletes it first thing). -/
 theorem C07_no_marker_open (s : St) (db : DB) (g : GDir) (cfg' : Cfg)
-    (hdb : s.db = some db) (hinv : Inv s db g) (hplan : plan s.world db.dir = none) (hcfg : cfg'.fileSize > 0) :
+    (hdb : s.db = some db) (hinv : Inv s db g) (hplan : plan s.world db.dir = none) (hcfg : cfg'.Valid) :
     ∃ d s' db', s.world.get db.dir = some d ∧ openDB (close s).1 db.dir cfg' = (s', .ok) ∧ s'.db = some db' ∧
       s'.world = s.world.set db.dir { d with data := syncAll d.data, locked := true } ∧
       db'.index = db.index ∧ db'.activeId = db.activeId ∧
@@ -166,7 +166,7 @@ theorem crashes_dir (dir : String) (ks : List Nat) : ∀ (w : World) (d : DirSt)
     the same index (C18). -/
 theorem C07_crash_safe (s : St) (db : DB) (g : GDir) (n : Nat) (gm vis : GDir) (cfg' : Cfg) (ks : List Nat)
     (hdb : s.db = some db) (hinv : Inv s db g) (hmo : MergeOutW s.world db.dir g n gm vis)
-    (hF : HintFits gm) (hcfg : cfg'.fileSize > 0) :
+    (hF : HintFits gm) (hcfg : cfg'.Valid) :
     ∃ s' db' d md, s.world.get db.dir = some d ∧ s.world.get (mergeDirName db.dir) = some md ∧
       openDB ⟨crashes (close s).1.world db.dir ks, none⟩ db.dir cfg' = (s', .ok) ∧
       s'.db = some db' ∧ db'.dir = db.dir ∧ db'.cfg = cfg' ∧ db'.activeId = db.activeId ∧
@@ -279,7 +279,7 @@ theorem C07_crash_safe (s : St) (db : DB) (g : GDir) (n : Nat) (gm vis : GDir) (
     configuration, ignores the unfinished merge directory, and recovers exactly the mapping of `s`;
     the data directory is byte for byte what it was (only the lock is taken again). -/
 theorem C07_merge_crash (s : St) (db : DB) (g : GDir) (order : List Nat) (cfg' : Cfg) (j i : Nat)
-    (hinv : Inv s db g) (ho : order.Nodup) (hcfg : cfg'.fileSize > 0) :
+    (hinv : Inv s db g) (ho : order.Nodup) (hcfg : cfg'.Valid) :
     (mergeMid s db g order j i).1.db = some (rotDB db) ∧
     (∀ k, absGet (mergeMid s db g order j i).1 (rotDB db) k = absGet s db k) ∧
     plan (mergeMid s db g order j i).1.world db.dir = none ∧
